@@ -8,6 +8,7 @@ TODO: Handle sys.argv
 import sys
 import io
 import types
+import threading
 from itertools import zip_longest
 from unittest.mock import patch
 
@@ -160,9 +161,17 @@ class Sandbox:
             return timeout(self.allowed_time, self._execute,
                            code, filename, kind, False, **meta)
         except TimeoutError as timeout_exception:
+            # The student thread was abandoned (it lost the claim, see
+            # `_stop_mocking`), so everything `_execute` would have done when
+            # the code ended is done here instead: undo the patches, keep what
+            # was printed so far, record the exception, close the context.
             self._stop_patches()
+            if self._current_stdout:
+                abandoned_stdout = self._current_stdout.pop()
+                self.append_output(abandoned_stdout.getvalue(), self._context[-1])
             self._capture_exception(timeout_exception, sys.exc_info(),
                                     code, filename)
+            self._next_context_id += 1
             return self
 
     def _execute(self, code, filename, kind, threaded, **meta):
@@ -551,10 +560,25 @@ class Sandbox:
     def _stop_mocking(self, context: SandboxContext):
         """ Turn off any patches, store output """
         _verif_sync("finalize:enter")
+        if not self._claim_finish():
+            # This execution timed out and the waiting thread already did all
+            # of this: end the abandoned thread (silently, as SystemExit does)
+            # without touching the sandbox.
+            raise SystemExit
         self._stop_patches()
         current_stdout = self._current_stdout.pop()
         self.append_output(current_stdout.getvalue(), context)
         _verif_sync("finalize:exit")
+
+    @staticmethod
+    def _claim_finish():
+        """
+        Whether the current thread may finalize the execution it is running:
+        always, unless it is a thread started by `timeout` whose caller has
+        already given up on it (and finalized the execution itself).
+        """
+        claim = getattr(threading.current_thread(), 'claim_finish', None)
+        return claim is None or claim()
 
     # Patching Functionality
     def _start_patches(self, *patches):
